@@ -61,10 +61,92 @@ def cases(tier, rng, run):
     return out
 
 
+def _expected(line: str):
+    """What the documented rule demands of every output part of a history (None = no demand): the verdict of a call is
+    decided by `oracle.spec_ctx` under the mapping the provider returns AT THAT MOMENT (independent of code and model)."""
+    import oracle
+    from checks import ctxcommon
+    from impl import parse_scope
+
+    acc = ctxcommon.accepts()
+    ann, kind, cur, fns, exp = {}, {}, {}, {}, []
+    for st in line.split("\t")[1:]:
+        f = st.split("|")
+        if f[0] == "A":
+            cls, opt, shape = f[2].split(",", 2)
+            ann[f[1]] = (cls, shape)
+        elif f[0] == "V":
+            kind[f[1]], cur[f[1]] = f[2], parse_scope(f[3])
+        elif f[0] == "S":
+            cur[f[1]] = parse_scope(f[2])
+        elif f[0] == "D":
+            fid, pid, params, ret = f[1:5]
+            if pid == "selfraw":
+                exp.append(("decor", "decor pyexc TypeError"))   # "self" on a function without self is refused at decoration
+                fns[fid] = None
+            else:
+                fns[fid] = (pid, params.split("=")[1].split(":")[0], None if ret == "-" else ret.split(":")[0])
+        elif f[0] == "C":
+            fid, _names, val, ret = f[1:5]
+            d = fns.get(fid)
+            if d is None:
+                exp.append(("call", None))
+                continue
+            pid, al, ral = d
+            p = pid[5:] if pid.startswith("self:") else pid
+            if pid == "-":
+                scope = {}
+            elif kind.get(p) in ("fresh", "long", "falsy"):
+                scope = cur[p]
+            else:
+                exp.append(("call", None))
+                continue
+
+            def ent(name, alias, v):
+                _t, code, dims = v.split(",")
+                return oracle.Ent(name, ann[alias][0], ann[alias][1], code, tuple(int(x) for x in dims.split(".")) if dims else ())
+
+            ea = [ent("x", al, val)]
+            va, _ = oracle.spec_ctx(scope, ea, acc)
+            if va == "violates":
+                exp.append(("call", "args-rejected"))
+            elif va == "conforms" and ral is None:
+                exp.append(("call", "accepted"))
+            elif va == "conforms" and ret not in ("-", "!"):
+                vw, _ = oracle.spec_ctx(scope, ea + [ent("return", ral, ret)], acc)
+                exp.append(("call", {"conforms": "accepted", "violates": "return-rejected"}.get(vw)))
+            else:
+                exp.append(("call", None))
+    return exp
+
+
 def judge(case, impl_out, spec):
-    last = impl_out.split(" ## ")[-1]
+    parts = impl_out.split(" ## ")
+    last = parts[-1]
     if "provsame=0" in last:
         return "the mapping returned by a scope provider was modified by a checked call"
+    if not case.line.startswith("HIST"):
+        return None
+    try:
+        exp = _expected(case.line)
+    except Exception:  # noqa: BLE001
+        return None
+    if len(exp) != len(parts) - 1:
+        return None
+    for k, ((what, e), got) in enumerate(zip(exp, parts)):
+        if e is None:
+            continue
+        if what == "decor":
+            if got != e:
+                return f"\"self\" on a function without self/cls must be refused with TypeError at decoration, got {got!r}"
+            continue
+        rejected = " reject " in " " + got + " "
+        if e == "accepted" and got != "calls=1 ok":
+            return f"call #{k} conforms under the mapping its provider returns at that moment, but: {got!r}"
+        if e == "args-rejected" and not (got.startswith("calls=0 ") and rejected):
+            return f"call #{k} violates its annotations under the mapping its provider returns at that moment, but: {got!r}"
+        if e == "return-rejected" and not (got.startswith("calls=1 ") and rejected):
+            return f"the value returned by call #{k} violates the return annotation under the provider's current mapping, but: {got!r}"
     return None
 
 
